@@ -878,6 +878,13 @@ class Walker:
                     self.mark_implicit_loads(d, ff)
                     for c in d.get("inner", []):
                         self.stmt(c, ff, ctx)
+                elif d.get("kind") == "CXXRecordDecl" and not d.get("isImplicit"):
+                    # a class LOCAL to a function body (`signal::connect`'s and `discard`'s `Awt`): its member functions are functions
+                    # like any other, of class "<class of the function>::<function>::<local class>"; nothing of them is charged to the
+                    # enclosing function
+                    saved = (getattr(self, "cur_access", "public"), self.cur_file)
+                    self.top(d, [s for s in ff.cls.split("::") if s] + [ff.fn])
+                    self.cur_access, self.cur_file = saved
             return
         if k == "LambdaExpr":
             # the body runs later / elsewhere, but lexically nested code still counts for site extraction;
